@@ -236,6 +236,9 @@ def m_divmod(ctx, args, kw):
 
 @nmodel(range)
 def m_range(ctx, args, kw):
+    args = [simplify_native(a) for a in args]
+    if all(isinstance(a, int) for a in args):
+        return range(*args)
     return SymRange(*args)
 
 
@@ -249,6 +252,8 @@ class SymRange(L.SymVal):
             raise Undecided("range with step")
 
     def sym_iter(self, ctx):
+        if not is_sym(self.start) and not is_sym(self.stop):
+            return list(range(self.start, self.stop))
         h = ctx.opts.get("range_iter")
         if h is not None:
             r = h(ctx, self)
@@ -521,3 +526,39 @@ def m_pbkdf2(ctx, args, kw):
     if dklen is None:
         dklen = 64
     return U.pbkdf2_sha512(simplify_native(a["password"]), simplify_native(a["salt"]), rounds, dklen)
+
+
+class B64Str(L.SymVal):
+    """base64.b64encode(rope) and its .decode()/.strip() (S9: the Base64 text of 64 bytes is 88
+    alphabet characters without whitespace); only prefixes are understood"""
+    def __init__(self, rope):
+        self.rope = as_rope(rope)
+
+    def sym_getattr(self, ctx, name):
+        if name in ("decode", "strip"):
+            return lambda *a, **k: self
+        raise Undecided("B64Str." + name)
+
+    def sym_subscript(self, ctx, idx):
+        if isinstance(idx, slice) and idx.start is None:
+            n = simplify_native(idx.stop)
+            f = z3.Function(f"b64prefix_{len(self.rope)}", z3.IntSort(), z3.IntSort(), E.PStr)
+            return SStr([OStr(f(L.toint(self.rope.be()), L.toint(n)), "b64prefix")])
+        raise Undecided("B64Str subscript")
+
+
+@nmodel(base64.b64encode)
+def m_b64encode(ctx, args, kw):
+    return B64Str(simplify_native(args[0]))
+
+
+class HexOf(L.SymVal):
+    """hex text of opaque bytes (input side): bytes.fromhex(HexOf(b)) == b"""
+    def __init__(self, ob):
+        self.ob = ob
+
+    def sym_fromhex(self, ctx):
+        return self.ob
+
+    def sym_type(self):
+        return str
